@@ -410,6 +410,260 @@ fn peek_unused(m: &CMap3<f64>, d: u32) -> bool {
     r.err().unwrap_or(false)
 }
 
+
+// ------------------------------------------------------------------ polyhedral complexes (C05)
+/// a complex of polyhedral cells over shared points; every cell is built on its own darts and
+/// closed with 1- and 2-links, so that coinciding faces of two cells are 3-sewable
+struct Complex {
+    pts: Vec<[f64; 3]>,
+    /// per dart (index = dart id): (cell, origin point, destination point)
+    darts: Vec<(usize, usize, usize)>,
+    /// construction ops (links, vertex writes)
+    build: Vec<Op>,
+}
+
+fn sub3(a: [f64; 3], b: [f64; 3]) -> [f64; 3] {
+    [a[0] - b[0], a[1] - b[1], a[2] - b[2]]
+}
+fn cross3(a: [f64; 3], b: [f64; 3]) -> [f64; 3] {
+    [a[1] * b[2] - a[2] * b[1], a[2] * b[0] - a[0] * b[2], a[0] * b[1] - a[1] * b[0]]
+}
+fn dot3(a: [f64; 3], b: [f64; 3]) -> f64 {
+    a[0] * b[0] + a[1] * b[1] + a[2] * b[2]
+}
+
+impl Complex {
+    fn new(pts: Vec<[f64; 3]>) -> Self {
+        Complex { pts, darts: vec![(usize::MAX, 0, 0)], build: Vec::new() }
+    }
+    /// add one cell given by its faces (point indices); faces are re-oriented outwards
+    fn cell(&mut self, faces: &[Vec<usize>]) {
+        let cid = self.darts.iter().map(|d| d.0.wrapping_add(1)).max().unwrap_or(0);
+        let mut all: Vec<usize> = faces.iter().flatten().copied().collect();
+        all.sort_unstable();
+        all.dedup();
+        let mut c = [0.0; 3];
+        for &v in &all {
+            for k in 0..3 {
+                c[k] += self.pts[v][k] / all.len() as f64;
+            }
+        }
+        let first = self.darts.len() as u32;
+        for f in faces {
+            let mut f = f.clone();
+            let n = cross3(sub3(self.pts[f[1]], self.pts[f[0]]), sub3(self.pts[f[2]], self.pts[f[0]]));
+            if dot3(n, sub3(self.pts[f[0]], c)) < 0.0 {
+                f.reverse();
+            }
+            let base = self.darts.len() as u32;
+            let k = f.len() as u32;
+            for i in 0..k {
+                self.darts.push((cid, f[i as usize], f[((i + 1) % k) as usize]));
+            }
+            for i in 0..k {
+                self.build.push(Op::Force(None, Call::L(1, base + i, base + (i + 1) % k)));
+            }
+        }
+        let last = self.darts.len() as u32;
+        for d in first..last {
+            for e in d + 1..last {
+                let (a, b) = (self.darts[d as usize], self.darts[e as usize]);
+                if a.1 == b.2 && a.2 == b.1 {
+                    self.build.push(Op::Force(None, Call::L(2, d, e)));
+                }
+            }
+        }
+        // coordinates at the vertex identifier (smallest dart of the cell leaving the point)
+        for &v in &all {
+            let d = (first..last).find(|&d| self.darts[d as usize].1 == v).unwrap();
+            self.build.push(Op::Force(None, Call::WriteVertex(d, self.pts[v])));
+        }
+    }
+    fn tet(&mut self, v: [usize; 4]) {
+        self.cell(&[vec![v[0], v[1], v[2]], vec![v[0], v[1], v[3]], vec![v[1], v[2], v[3]], vec![v[0], v[2], v[3]]]);
+    }
+    fn prism(&mut self, b: [usize; 3], t: [usize; 3]) {
+        self.cell(&[
+            vec![b[0], b[1], b[2]],
+            vec![t[0], t[1], t[2]],
+            vec![b[0], b[1], t[1], t[0]],
+            vec![b[1], b[2], t[2], t[1]],
+            vec![b[2], b[0], t[0], t[2]],
+        ]);
+    }
+    fn hex(&mut self, b: [usize; 4], t: [usize; 4]) {
+        self.cell(&[
+            vec![b[0], b[1], b[2], b[3]],
+            vec![t[0], t[1], t[2], t[3]],
+            vec![b[0], b[1], t[1], t[0]],
+            vec![b[1], b[2], t[2], t[1]],
+            vec![b[2], b[3], t[3], t[2]],
+            vec![b[3], b[0], t[0], t[3]],
+        ]);
+    }
+    fn n_darts(&self) -> u32 {
+        self.darts.len() as u32 - 1
+    }
+    /// dart pairs of coinciding faces of two different cells (a good 3-sew argument)
+    fn sewable(&self) -> Vec<(u32, u32)> {
+        let n = self.darts.len() as u32;
+        let mut v = Vec::new();
+        for l in 1..n {
+            for r in 1..n {
+                let (a, b) = (self.darts[l as usize], self.darts[r as usize]);
+                if a.0 != b.0 && a.1 == b.2 && a.2 == b.1 {
+                    v.push((l, r));
+                }
+            }
+        }
+        v
+    }
+}
+
+/// the family of small complexes: `which` selects the shape, `m` the number of cells
+fn complex(which: u32, m: u32) -> Complex {
+    // points: 0 = A (0,0,0), 1 = B (0,0,1), 2 = C (0,0,2); ring points at z = 0, 1, 2
+    let ring4: [[f64; 2]; 4] = [[1.0, 0.0], [0.0, 1.0], [-1.0, 0.0], [0.0, -1.0]];
+    let ring3: [[f64; 2]; 3] = [[1.0, 0.0], [-0.5, 0.75], [-0.5, -0.75]];
+    let k = if which % 2 == 0 { 3usize } else { 4usize };
+    let ring: Vec<[f64; 2]> = if k == 3 { ring3.to_vec() } else { ring4.to_vec() };
+    let mut pts = vec![[0.0, 0.0, 0.0], [0.0, 0.0, 1.0], [0.0, 0.0, 2.0]];
+    for z in 0..3 {
+        for p in &ring {
+            pts.push([p[0], p[1], f64::from(z)]);
+        }
+    }
+    let p = |z: usize, i: usize| 3 + z * k + (i % k);
+    let mut c = Complex::new(pts);
+    let m = (m as usize).min(k).max(1);
+    match which / 2 {
+        // tets around the axis A-B: consecutive ones share the face (A, B, P_{i+1})
+        0 => {
+            for i in 0..m {
+                c.tet([0, 1, p(0, i), p(0, i + 1)]);
+            }
+        }
+        // prisms around the axis: consecutive ones share a quadrilateral
+        1 => {
+            for i in 0..m {
+                c.prism([0, p(0, i), p(0, i + 1)], [1, p(1, i), p(1, i + 1)]);
+            }
+        }
+        // a prism, a second one stacked on it (shared triangle), a tet on top of that
+        2 => {
+            c.prism([0, p(0, 0), p(0, 1)], [1, p(1, 0), p(1, 1)]);
+            if m >= 2 {
+                c.prism([1, p(1, 0), p(1, 1)], [2, p(2, 0), p(2, 1)]);
+            }
+            if m >= 3 {
+                c.tet([1, p(1, 0), p(1, 1), p(0, 2)]);
+            }
+        }
+        // hexahedra in a row / an L (shared quadrilaterals), built cell by cell
+        _ => {
+            // lattice points appended after the ring points
+            let base = c.pts.len();
+            for z in 0..2 {
+                for y in 0..3 {
+                    for x in 0..3 {
+                        c.pts.push([f64::from(x), f64::from(y), f64::from(z)]);
+                    }
+                }
+            }
+            let q = |x: usize, y: usize, z: usize| base + z * 9 + y * 3 + x;
+            let cells: [(usize, usize); 3] = [(0, 0), (1, 0), (0, 1)];
+            for &(x, y) in cells.iter().take(m) {
+                c.hex(
+                    [q(x, y, 0), q(x + 1, y, 0), q(x + 1, y + 1, 0), q(x, y + 1, 0)],
+                    [q(x, y, 1), q(x + 1, y, 1), q(x + 1, y + 1, 1), q(x, y + 1, 1)],
+                );
+            }
+        }
+    }
+    c
+}
+
+/// value patterns on a built complex: undefine / perturb some vertices, write attributes at cells
+fn pattern_ops(rng: &mut Rng, m: &CMap3<f64>, mask: u32, n: u32) -> Vec<Op> {
+    let mut v = Vec::new();
+    let k = rng.below(5);
+    for _ in 0..k {
+        let d = 1 + rng.below(u64::from(n)) as u32;
+        let vid = m.vertex_id(d);
+        match rng.below(3) {
+            0 => v.push(Op::Force(None, Call::RemoveVertex(vid))),
+            _ => {
+                if let Some(p) = m.force_read_vertex(vid) {
+                    let e = [0.0, 0.125, -0.125, 0.0625];
+                    v.push(Op::Force(None, Call::WriteVertex(vid, [p.x() + *rng.pick(&e), p.y() + *rng.pick(&e), p.z() + *rng.pick(&e)])));
+                }
+            }
+        }
+    }
+    if mask != 0 {
+        let ks: Vec<u32> = (0..N_KINDS).filter(|k| mask & (1 << k) != 0).collect();
+        let k = rng.below(12);
+        for _ in 0..k {
+            let kind = *rng.pick(&ks);
+            let d = 1 + rng.below(u64::from(n)) as u32;
+            let id = match kind {
+                0 | 3 => m.vertex_id(d),
+                1 => m.edge_id(d),
+                _ => m.face_id(d),
+            };
+            v.push(Op::Force(None, Call::WriteAttr(kind, id, rng.below(40) as u32)));
+        }
+    }
+    v
+}
+
+/// a sew / unsew mostly aimed at sewable pairs and sewn darts
+fn gen_cell_call(rng: &mut Rng, m: &CMap3<f64>, cx: &Complex) -> Call {
+    let n = cx.n_darts();
+    let any = |rng: &mut Rng| 1 + rng.below(u64::from(n)) as u32;
+    match rng.below(100) {
+        0..=39 => {
+            let good: Vec<(u32, u32)> = cx.sewable().into_iter().filter(|&(l, r)| m.beta::<3>(l) == 0 && m.beta::<3>(r) == 0).collect();
+            if good.is_empty() || rng.chance(1, 10) {
+                Call::S(3, any(rng), any(rng))
+            } else {
+                let (l, r) = *rng.pick(&good);
+                Call::S(3, l, r)
+            }
+        }
+        40..=64 => {
+            let sewn: Vec<u32> = (1..=n).filter(|&d| m.beta::<3>(d) != 0).collect();
+            if sewn.is_empty() || rng.chance(1, 10) { Call::X(3, any(rng)) } else { Call::X(3, *rng.pick(&sewn)) }
+        }
+        65..=74 => Call::X(2, any(rng)),
+        75..=86 => {
+            // re-sew a 2-free dart with the dart of the same cell running the other way
+            let free: Vec<u32> = (1..=n).filter(|&d| m.beta::<2>(d) == 0).collect();
+            if free.is_empty() {
+                Call::S(2, any(rng), any(rng))
+            } else {
+                let l = *rng.pick(&free);
+                let a = cx.darts[l as usize];
+                let r = (1..=n).find(|&r| r != l && m.beta::<2>(r) == 0 && cx.darts[r as usize].0 == a.0 && cx.darts[r as usize].1 == a.2 && cx.darts[r as usize].2 == a.1);
+                Call::S(2, l, r.unwrap_or_else(|| any(rng)))
+            }
+        }
+        87..=92 => Call::X(1, any(rng)),
+        _ => {
+            let free: Vec<u32> = (1..=n).filter(|&d| m.beta::<1>(d) == 0).collect();
+            if free.is_empty() {
+                Call::S(1, any(rng), any(rng))
+            } else {
+                let l = *rng.pick(&free);
+                let a = cx.darts[l as usize];
+                // the dart of the same face that starts where l ends (its former 1-image)
+                let r = (1..=n).find(|&r| m.beta::<0>(r) == 0 && cx.darts[r as usize].0 == a.0 && cx.darts[r as usize].1 == a.2 && r / 1 != l && (r as i64 - l as i64).abs() < 6);
+                Call::S(1, l, r.unwrap_or_else(|| any(rng)))
+            }
+        }
+    }
+}
+
 struct Out {
     cases: std::io::BufWriter<std::fs::File>,
     obs: std::io::BufWriter<std::fs::File>,
@@ -561,6 +815,130 @@ fn main() {
                                         }
                                     }
                                 }
+                            }
+                        }
+                    }
+                }
+            }
+        }
+
+        "cells" => {
+            // random complexes of tetrahedra / prisms / hexahedra, value patterns, then sews and unsews
+            for i in 0..ncases {
+                let mask = if rng.chance(1, 3) { 0 } else { rng.below(16) as u32 };
+                let which = rng.below(8) as u32;
+                let cx = complex(which, 1 + rng.below(4) as u32);
+                let n = cx.n_darts();
+                let nops = 1 + rng.below(maxops as u64) as usize;
+                let mut r2 = Rng::new(rng.next());
+                let mut pre: Vec<Op> = vec![Op::Obs(false)];
+                pre.extend(cx.build.iter().cloned());
+                let npre = pre.len();
+                let mut queue: std::collections::VecDeque<Op> = pre.into();
+                let mut patterned = false;
+                let mut done = 0usize;
+                run_case(
+                    &format!("{tag}{i}"),
+                    mask,
+                    (0, n, 0, 0),
+                    &mut |m, step| {
+                        if let Some(o) = queue.pop_front() {
+                            return Some(o);
+                        }
+                        if step >= npre && !patterned {
+                            patterned = true;
+                            queue.extend(pattern_ops(&mut r2, m, mask, n));
+                            queue.push_back(Op::Obs(true));
+                            return queue.pop_front();
+                        }
+                        if done >= nops {
+                            return None;
+                        }
+                        done += 1;
+                        let fa = if mask != 0 && r2.chance(fault, 100) { Some(r2.below(4)) } else { None };
+                        if r2.chance(1, 12) {
+                            // re-pattern in the middle of the history
+                            queue.extend(pattern_ops(&mut r2, m, mask, n));
+                        }
+                        Some(Op::Force(fa, gen_cell_call(&mut r2, m, &cx)))
+                    },
+                    &mut out,
+                );
+            }
+        }
+        "cellsx" => {
+            // exhaustive: every ordered dart pair as a 3-sew argument on two-cell complexes and on rings
+            // with all but the closing face sewn; then every dart as an unsew argument on the sewn complex
+            let mut id = 0usize;
+            for which in 0..8u32 {
+                for m_cells in 2..=4u32 {
+                    if m_cells > 2 && (which / 2 == 3 || (which / 2 == 2 && m_cells > 3)) || (m_cells == 4 && which % 2 == 0) {
+                        continue;
+                    }
+                    let cx = complex(which, m_cells);
+                    let n = cx.n_darts();
+                    if n > maxn as u32 {
+                        continue;
+                    }
+                    // one sewable pair per pair of cells (two cells share at most one face here)
+                    let mut reps: Vec<(u32, u32)> = Vec::new();
+                    for (l, r) in cx.sewable() {
+                        let key = (cx.darts[l as usize].0, cx.darts[r as usize].0);
+                        if key.0 < key.1 && !reps.iter().any(|&(a, b)| (cx.darts[a as usize].0, cx.darts[b as usize].0) == key) {
+                            reps.push((l, r));
+                        }
+                    }
+                    let mut probe = |mask: u32, presewn: &[(u32, u32)], call: Call, id: &mut usize| {
+                        let mut queue: std::collections::VecDeque<Op> = std::collections::VecDeque::new();
+                        queue.push_back(Op::Obs(false));
+                        queue.extend(cx.build.iter().cloned());
+                        for &(a, b) in presewn {
+                            queue.push_back(Op::Force(None, Call::S(3, a, b)));
+                        }
+                        let npre = queue.len();
+                        let mut patterned = false;
+                        let mut call = Some(call);
+                        run_case(
+                            &format!("x{id}"),
+                            mask,
+                            (0, n, 0, 0),
+                            &mut |m, step| {
+                                if let Some(o) = queue.pop_front() {
+                                    return Some(o);
+                                }
+                                if step >= npre && !patterned {
+                                    patterned = true;
+                                    if mask != 0 {
+                                        for d in (1..=n).step_by(3) {
+                                            let kind = d % 4;
+                                            let cid = match kind {
+                                                0 | 3 => m.vertex_id(d),
+                                                1 => m.edge_id(d),
+                                                _ => m.face_id(d),
+                                            };
+                                            queue.push_back(Op::Force(None, Call::WriteAttr(kind, cid, d)));
+                                        }
+                                    }
+                                    queue.push_back(Op::Obs(true));
+                                    return queue.pop_front();
+                                }
+                                call.take().map(|c| Op::Force(None, c))
+                            },
+                            &mut out,
+                        );
+                        *id += 1;
+                    };
+                    for mask in [0u32, 15] {
+                        let presewn = &reps[..reps.len().saturating_sub(1)];
+                        let stride = if n > 40 { 4 } else { 1 };
+                        for l in (1..=n).step_by(stride) {
+                            for r in 1..=n {
+                                probe(mask, presewn, Call::S(3, l, r), &mut id);
+                            }
+                        }
+                        for d in 1..=n {
+                            for dim in 1..=3u8 {
+                                probe(mask, &reps, Call::X(dim, d), &mut id);
                             }
                         }
                     }
